@@ -1049,6 +1049,25 @@ impl BackupManager {
         let mut deleted = Vec::new();
         let min_age_seconds = policy.min_age_days * day;
 
+        // Every backup that survives this prune -- bucket winners and backups younger than the
+        // minimum age -- can only be restored through its whole parent chain, so the ancestors
+        // of a retained backup are retained as well.
+        for backup in &backups {
+            if now.saturating_sub(backup.timestamp) < min_age_seconds {
+                to_keep.insert(backup.id);
+            }
+        }
+        let parent_of: std::collections::HashMap<Uuid, Option<Uuid>> =
+            backups.iter().map(|b| (b.id, b.parent_id)).collect();
+        let mut pending: Vec<Uuid> = to_keep.iter().copied().collect();
+        while let Some(id) = pending.pop() {
+            if let Some(Some(parent)) = parent_of.get(&id) {
+                if to_keep.insert(*parent) {
+                    pending.push(*parent);
+                }
+            }
+        }
+
         for backup in &backups {
             if !to_keep.contains(&backup.id) {
                 let age = now.saturating_sub(backup.timestamp);
